@@ -257,7 +257,7 @@ var initStd = map[string]bool{
 	"encoding/hex": true, "encoding/base64": true, "errors": true, "cmp": true, "maps": true, "io": true,
 	"gopkg.in/src-d/go-errors.v1": true, "container/list": true, "hash/crc32": false,
 	"internal/strconv": true, "internal/stringslite": true, "internal/byteorder": true, "internal/itoa": true,
-	"github.com/cockroachdb/apd/v3": true, "context": true, "net/netip": true, "go.opentelemetry.io/otel/trace": true, "bufio": true, "regexp": true, "regexp/syntax": true,
+	"github.com/cockroachdb/apd/v3": true, "context": true, "net/netip": true, "go.opentelemetry.io/otel/trace": true, "bufio": true, "regexp": true, "regexp/syntax": true, "time": true,
 }
 
 func (w *World) wantInit(p *ssa.Package) bool {
@@ -272,7 +272,7 @@ func (w *World) wantInit(p *ssa.Package) bool {
 }
 
 var denyPrefixes = []string{
-	"os", "net", "syscall", "runtime", "reflect", "time", "fmt", "log", "sync", "os/",
+	"os", "net", "syscall", "runtime", "reflect", "fmt", "log", "sync", "os/",
 	"internal/reflectlite", "internal/poll", "internal/syscall", "internal/runtime", "internal/testlog", "internal/bisect", "internal/oserror",
 	"github.com/sirupsen/logrus", "go.opentelemetry.io/", "io/ioutil", "io/fs", "net/", "crypto/", "testing",
 	"unsafe", "path/filepath", "math/rand", "math/big", "encoding/json", "database/sql",
